@@ -11,6 +11,7 @@ FeesAttr == {Fee(0, 1000, 0), Fee(4, 1000, 1000000)}
 DesigAll3 == {{0, 1, 2}}
 DesigAll2 == {{0, 1}}
 DesigTwo  == {{0, 1, 2}, {0, 1}}
+DesigTwo2 == {{0, 1}, {0}}
 
 \* bounds of the history sets keep the runs finite and small
 Bound == Cardinality(net) <= MaxNet /\ Cardinality(sentlog) <= 6 /\ Cardinality(relaylog) <= 4
